@@ -196,7 +196,8 @@ Proof. vm_compute. repeat split; reflexivity. Qed.
    records (each record at a read-covered position carries that variant's heterozygous, fully called genotype):
    the model of component construction + superreads + PhasedVcfWriter produces calls that satisfy the per-sample
    predicate the harness evaluates on real output: every phased call lists exactly the input alleles, only
-   heterozygous fully called genotypes are phased, unphased calls keep their alleles and carry no phase set (an old
+   heterozygous fully called genotypes are phased, a call with a missing, partially missing or homozygous genotype comes
+   out unphased with exactly its input alleles, other unphased calls keep their alleles and carry no phase set (an old
    PS value is always removed, /repo 9ec9805), and the phase sets are disjoint
    intervals of acc named by the first variant of their interval. *)
 Theorem C15_sample_output_ok : forall acc cols cuts gs (recs : list inrec),
@@ -213,11 +214,11 @@ Print Assumptions C15_sample_output_ok.
 Example C15_sample_example :
   let acc := [10; 11; 20; 30; 31] in
   let cols := [[0; 1; 1]; [1; 0; 1]; [0; -1; 1]; [1; 1; 0]; [0; 0; 2]] in
-  let recs := [(5, [0; 1; 1], None); (10, [0; 1; 1], None); (11, [0; 1; 1], Some 3); (20, [0; 1; 1], Some 3);
-               (30, [0; 1; 1], None); (31, [0; 0; 2], None)] in
+  let recs := [(5, [0; 1; 1], None); (7, [1; -1; 0], None); (8, [1; 1; 1], Some 3); (10, [0; 1; 1], None);
+               (11, [0; 1; 1], Some 3); (20, [0; 1; 1], Some 3); (30, [0; 1; 1], None); (31, [0; 0; 2], None)] in
   option_map (fun outs => (map snd outs, sample_okb (map (fun a => a + 1) acc) (obs_of_model recs outs)))
              (sample_out acc cols [0; 2; 3]%nat recs)
-  = Some ([([0; 1; 1], false, None); ([0; 1; 1], true, Some 11); ([1; 0; 1], true, Some 11);
+  = Some ([([0; 1; 1], false, None); ([1; -1; 0], false, None); ([1; 1; 1], false, None); ([0; 1; 1], true, Some 11); ([1; 0; 1], true, Some 11);
            ([0; 1; 1], false, None); ([1; 1; 0], true, Some 31); ([0; 0; 2], true, Some 31)], true).
 Proof. vm_compute. reflexivity. Qed.
 
